@@ -13,6 +13,15 @@ ALLOWED_AXIOMS = {
 }
 
 PROPS = {
+    "C18": {
+        "n": {"quick": 2000, "thorough": 40000},
+        "shards": 16,
+        "trusted": [
+            "the model's input is the AST the real parser produced for the open document and the declaration lists the harness reads (with the real parser) from the workspace root's tree; strings.ToLower restricted to ASCII",
+        ],
+        "assumptions": ["the workspace root journal is main.journal; its tree is main + sub (the harness's directory shape)"],
+        "explanation": "C18_account_rule, C18_commodity_rule, C18_commodity_once, C18_settings for all inputs; C18_scope_refuted; tie+oracle through Initialize(options) / didOpen / publishDiagnostics on generated 3-file directories x 8 settings x root/no root",
+    },
     "C02": {
         "n": {"quick": 2500, "thorough": 60000},
         "shards": 16,
